@@ -92,6 +92,21 @@ claimed = {
    technique="effect analysis: write provenance + shared-state inventory + field ownership over go/ssa", ref="4/C20"),
 }
 
+
+claimed.update({
+ 'C11': dict(
+   text=("FC->{Sigmoid,Relu}->CE->BackPropagate->SGD.Update->ResetGradContext(true) interpreted through the REAL code for two steps (interface calls dispatched to the real cputensor methods, real walk) with symbolic widths and batch size symbolic or 1: every update succeeds, weights keep shape [Outputs], the step-2 update expression equals the step-1 expression with the weights renamed (no gradient, edge, spent flag or cached tensor leaks across steps), and with the reset omitted the next update reports the missing gradient. The VALUE of the trajectory (w - lr*dL/dw) is compositional over C01/C02/C07/C17; the C07 obligations of the expansions FC uses are re-run and carry known finding D2."),
+   note=TRUST + " The numeric trajectory itself is not decided beyond the composition argument.",
+   technique=AI + " of a two-step training loop through the real components, walk and optimizer (state, shape and step-equivalence clauses)", ref="4/C11"),
+ 'C13': dict(
+   text=("The real Compute builds a real graph, the real BackPropagate is interpreted over it, and the gradient reaching the prediction (tracked leaf, or intermediate k*q of an upstream tracked op) must have the normal form 2(p-t)/N, ((1-t)/(1-p)-t/p)/N, -(t/p)/N inside the clipping interval and exactly 0 in the clipped regions incl. predictions exactly 0 or 1; prediction's shape; interval-finite; untracked target gets nothing; the Eq tolerance extracted from the kernel must be below the clipping epsilon."),
+   note=TRUST + " Predictions exactly at the clipping bounds are excluded by the quantifier.",
+   technique=AI + " of loss graphs and the real back-propagation walk against analytic derivatives (order-case split at the clip bounds)", ref="4/C13"),
+ 'C15': dict(
+   text=("x (tracked leaf) -> h = k*x -> activation -> *G (arbitrary upstream weighting) -> real BackPropagate: x's gradient must be G*k*act'(h): 1|0 (1|m for LeakyRelu with symbolic, >1, negative, default slopes) by the sign of h, a value between them at h=0, the symbolic derivative of the composite for Sigmoid/Tanh, p_i(g_i - sum_j p_j g_j) for Softmax along every dim (today: known finding, inherits D2); finite; input's shape; ranks 0..2 (thorough 4)."),
+   note=TRUST,
+   technique=AI + " of activation graphs and the real walk against analytic derivatives (sign-case split at 0)", ref="4/C15"),
+})
 reasons_na = {
  'C11': "compositional over C01, C02, C07, C08, C10, C16, C17 (each claimed separately); the end-to-end trajectory clause is not yet decided by its own check - build in progress",
  'C13': "compositional over C12, C01, C02 (each claimed separately); an end-to-end check of the loss gradients through the real BackPropagate is being built",
